@@ -48,8 +48,14 @@ def _patch_specs(prop):
         if not os.path.exists(os.path.join(d, 'patch.diff')):
             continue
         name = os.path.basename(d)
+        try:
+            recorded = json.load(open(os.path.join(d, 'meta.json'))).get('undecided_now', [])
+        except (OSError, ValueError):
+            recorded = []
         for p in props:
-            out.append({'prop': p, 'name': 'refactoring-%s-vs-%s' % (name, p), 'kind': 'variant', 'patch': os.path.join(d, 'patch.diff'), 'edits': []})
+            # a check may answer "undecided" (exit 2, never an alarm) on a refactoring only where meta.json records that limit
+            out.append({'prop': p, 'name': 'refactoring-%s-vs-%s' % (name, p), 'kind': 'variant', 'patch': os.path.join(d, 'patch.diff'), 'edits': [],
+                        'undecided_recorded': p in recorded})
     return out
 
 
@@ -95,6 +101,8 @@ def _run_one(args):
     except AnalysisError as e:
         if spec['kind'] == 'mutant' and spec.get('accept_analysis_error'):
             return (spec['name'], 'detected', 'analysis-error: %s' % e)
+        if spec['kind'] == 'variant' and spec.get('undecided_recorded'):
+            return (spec['name'], 'undecided-as-recorded', str(e))
         return (spec['name'], 'analysis-error', str(e))
     new, matched = ctx.split_known()
     rules = sorted({v['rule'] for v in new})
